@@ -193,6 +193,9 @@ func ChanClose[T any](ch chan T) {
 	}
 	if ch != nil {
 		s.closed[chanKey(ch)] = true
+		// keep the channel reachable for the rest of the run: the closed set
+		// is keyed by address, which must not be reused by a new channel
+		s.keep = append(s.keep, ch)
 	}
 	close(ch)
 }
@@ -337,6 +340,9 @@ func ChanCloseOnly[T any](ch chan<- T) {
 	}
 	if ch != nil {
 		s.closed[chanKey(ch)] = true
+		// keep the channel reachable for the rest of the run: the closed set
+		// is keyed by address, which must not be reused by a new channel
+		s.keep = append(s.keep, ch)
 	}
 	close(ch)
 }
